@@ -37,6 +37,7 @@ Definition prio_is_zero (p : prio) : bool := (p_dep p =? 0) && negb (p_excl p) &
    blocks are encoded in the order they are written). *)
 Inductive qframe :=
 | QData (id : N) (es : bool) (data : list N)
+| QDataP (id : N) (es : bool) (data : list N) (m : N)   (* a released DATA frame: m = the peer's max frame size at release *)
 | QHdr (id : N) (es : bool) (p : prio) (fields : list field) (chunks : list (list N))
 | QPush (id promise : N) (fields : list field) (chunks : list (list N))
 | QPrio (id : N) (p : prio)
@@ -44,12 +45,12 @@ Inductive qframe :=
 
 Definition q_id (q : qframe) : N :=
   match q with
-  | QData id _ _ => id | QHdr id _ _ _ _ => id | QPush id _ _ _ => id | QPrio id _ => id | QRst id _ => id
+  | QData id _ _ => id | QDataP id _ _ _ => id | QHdr id _ _ _ _ => id | QPush id _ _ _ => id | QPrio id _ => id | QRst id _ => id
   end.
 
 (* flowControlSize *)
 Definition fsz (q : qframe) : Z :=
-  match q with QData _ _ d => Z.of_N (len d) | _ => 0%Z end.
+  match q with QData _ _ d => Z.of_N (len d) | QDataP _ _ d _ => Z.of_N (len d) | _ => 0%Z end.
 
 (* frames as written to / read from the wire by http2.Framer *)
 Inductive wframe :=
@@ -73,9 +74,21 @@ Fixpoint conts (id : N) (chunks : list (list N)) : list wframe :=
   | c :: r => WCont id false c :: conts id r
   end.
 
+(* queuedDataFrame.send: the payload is split again if the peer's max frame size (as recorded by prepare)
+   is smaller than the frame *)
+Fixpoint wdata_pieces (fuel : nat) (m id : N) (d : list N) (es : bool) : list wframe :=
+  match fuel with
+  | O => [WData id es d]
+  | Datatypes.S k =>
+      if (0 <? m) && (m <? len d)
+      then WData id false (takeN m d) :: wdata_pieces k m id (dropN m d) es
+      else [WData id es d]
+  end.
+
 Definition send (q : qframe) : list wframe :=
   match q with
   | QData id es d => [WData id es d]
+  | QDataP id es d m => wdata_pieces (length d) m id d es
   | QHdr id es p _ chunks =>
       WHeaders id es (len chunks <=? 1) p (hd [] chunks) :: conts id (tl chunks)
   | QPush id pr _ chunks =>
@@ -332,6 +345,7 @@ Section Codec.
         | Some ch => Some (QPush id pr fields ch, est')
         | None => None
         end
+    | QData id es d => Some (QDataP id es d maxp, est)
     | _ => Some (q, est)
     end.
 
